@@ -537,6 +537,11 @@ def replay(ctx, failing):
         print('style=%s\nexpected identifiers: %r\nobserved now        : %r' % (inp['style'], exp, ids))
         if exp == 'unique identifiers':
             return len(set(map(tuple, ids))) != len(ids)
+        if isinstance(exp, dict) and len(exp) == 1 and list(exp)[0].endswith(' starts with'):
+            key = list(exp)[0][:-len(' starts with')]
+            got = [(o[4] or '').lstrip('\n').split('\n')[0].strip() for o in obs if '%s:%d' % (o[0], o[1]) == key]
+            print('first source line of %s: expected %r, observed now %r' % (key, exp[list(exp)[0]], got))
+            return got != [exp[list(exp)[0]]]
         return ids != exp
     if kind == 'package':
         with cc.scratch_dir() as d:
